@@ -89,3 +89,114 @@ pub fn trace<T: Serialize>(x: &T) -> String {
         Err(e) => format!("ERR {}", e),
     }
 }
+
+// ------------------------------------------------------------------------------------------------------------
+/// A NON-SELF-DESCRIBING recording `Deserializer` (bincode / postcard style): the input is the bare sequence of a
+/// struct's fields, here the one integer `bits`.  It can only honour hints that say what to read
+/// (`deserialize_struct` / `_tuple` / `_tuple_struct` / `_newtype_struct`, then `deserialize_<int>` for the field);
+/// `deserialize_any`, `_map`, `_seq`, `_identifier` ... fail as they do in such formats.  Every call is recorded.
+use serde::de::{self, DeserializeSeed, Deserializer, SeqAccess, Visitor};
+use std::cell::RefCell;
+
+impl de::Error for RecErr {
+    fn custom<T: fmt::Display>(msg: T) -> Self {
+        RecErr(msg.to_string())
+    }
+}
+
+#[derive(Clone, Copy)]
+pub struct RecDe<'a> {
+    bits: u128,
+    log: &'a RefCell<String>,
+    field: bool,
+}
+
+struct FieldSeq<'a> {
+    de: RecDe<'a>,
+    left: usize,
+}
+
+impl<'de, 'a> SeqAccess<'de> for FieldSeq<'a> {
+    type Error = RecErr;
+    fn next_element_seed<T: DeserializeSeed<'de>>(&mut self, seed: T) -> Result<Option<T::Value>, RecErr> {
+        if self.left == 0 {
+            return Ok(None);
+        }
+        self.left -= 1;
+        seed.deserialize(RecDe { field: true, ..self.de }).map(Some)
+    }
+}
+
+macro_rules! de_refuse {
+    ($($m:ident),*) => {$(
+        fn $m<V: Visitor<'de>>(self, _: V) -> Result<V::Value, RecErr> {
+            self.note(stringify!($m));
+            Err(RecErr(concat!("format is not self-describing: cannot honour ", stringify!($m)).into()))
+        }
+    )*};
+}
+macro_rules! de_int {
+    ($($m:ident $v:ident $t:ty),*) => {$(
+        fn $m<V: Visitor<'de>>(self, v: V) -> Result<V::Value, RecErr> {
+            self.note(stringify!($m));
+            if !self.field {
+                return Err(RecErr(concat!("top-level ", stringify!($m)).into()));
+            }
+            v.$v(self.bits as $t)
+        }
+    )*};
+}
+
+impl<'a> RecDe<'a> {
+    fn note(&self, s: &str) {
+        let mut l = self.log.borrow_mut();
+        if !l.is_empty() {
+            l.push(' ');
+        }
+        l.push_str(s);
+    }
+}
+
+impl<'de, 'a> Deserializer<'de> for RecDe<'a> {
+    type Error = RecErr;
+    de_refuse! { deserialize_any, deserialize_bool, deserialize_f32, deserialize_f64, deserialize_char, deserialize_str,
+                 deserialize_string, deserialize_bytes, deserialize_byte_buf, deserialize_option, deserialize_unit,
+                 deserialize_seq, deserialize_map, deserialize_identifier, deserialize_ignored_any }
+    de_int! { deserialize_i8 visit_i8 i8, deserialize_i16 visit_i16 i16, deserialize_i32 visit_i32 i32, deserialize_i64 visit_i64 i64,
+              deserialize_i128 visit_i128 i128, deserialize_u8 visit_u8 u8, deserialize_u16 visit_u16 u16, deserialize_u32 visit_u32 u32,
+              deserialize_u64 visit_u64 u64, deserialize_u128 visit_u128 u128 }
+    fn deserialize_unit_struct<V: Visitor<'de>>(self, _: &'static str, _: V) -> Result<V::Value, RecErr> {
+        self.note("deserialize_unit_struct");
+        Err(RecErr("unit struct: nothing to read".into()))
+    }
+    fn deserialize_newtype_struct<V: Visitor<'de>>(self, name: &'static str, v: V) -> Result<V::Value, RecErr> {
+        self.note(&format!("deserialize_newtype_struct({})", name));
+        v.visit_newtype_struct(RecDe { field: true, ..self })
+    }
+    fn deserialize_tuple<V: Visitor<'de>>(self, len: usize, v: V) -> Result<V::Value, RecErr> {
+        self.note(&format!("deserialize_tuple({})", len));
+        v.visit_seq(FieldSeq { de: self, left: len })
+    }
+    fn deserialize_tuple_struct<V: Visitor<'de>>(self, name: &'static str, len: usize, v: V) -> Result<V::Value, RecErr> {
+        self.note(&format!("deserialize_tuple_struct({},{})", name, len));
+        v.visit_seq(FieldSeq { de: self, left: len })
+    }
+    fn deserialize_struct<V: Visitor<'de>>(self, name: &'static str, fields: &'static [&'static str], v: V) -> Result<V::Value, RecErr> {
+        self.note(&format!("deserialize_struct({},[{}])", name, fields.join(",")));
+        v.visit_seq(FieldSeq { de: self, left: fields.len() })
+    }
+    fn deserialize_enum<V: Visitor<'de>>(self, _: &'static str, _: &'static [&'static str], _: V) -> Result<V::Value, RecErr> {
+        self.note("deserialize_enum");
+        Err(RecErr("enum: no variant index in the input".into()))
+    }
+    fn is_human_readable(&self) -> bool {
+        false
+    }
+}
+
+/// decode a `T` from the bare field sequence [bits]; returns (value or error, recorded calls)
+pub fn from_field_seq<T: de::DeserializeOwned>(bits: u128) -> (Result<T, String>, String) {
+    let log = RefCell::new(String::new());
+    let r = T::deserialize(RecDe { bits, log: &log, field: false }).map_err(|e| e.0);
+    (r, log.into_inner())
+}
